@@ -111,11 +111,23 @@ def _impl_mi(c):
     y = np.array(c['y'], dtype='d').reshape(c['yshape'])
     mask = np.array(c['mask'], dtype=c.get('mdtype', 'i4')).reshape(c['mshape'])
     x = None if c['xshape'] is None else np.array(c['x'], dtype='d').reshape(c['xshape'])
+    y0 = y.copy()
     try:
         r = djs_maskinterp(y, mask, xval=x, axis=c['axis'], const=c['const'])
-        return {'ok': _bits(np.asarray(r, dtype='d').ravel())}
+        out = {'ok': _bits(np.asarray(r, dtype='d').ravel())}
     except Exception as e:
         return {'err': core.exc_kind(e)}
+    if _bits(y.ravel()) != _bits(y0.ravel()):
+        # history: the caller interpolates the same data again (other mask): the answer must be that of THOSE arguments
+        try:
+            m2 = np.zeros_like(mask)
+            again = _bits(np.asarray(djs_maskinterp(y, m2, xval=x, axis=c['axis'], const=c['const']), dtype='d').ravel())
+            fresh = _bits(np.asarray(djs_maskinterp(y0.copy(), m2.copy(), xval=x, axis=c['axis'], const=c['const']), dtype='d').ravel())
+            if again != fresh:
+                out['history'] = 'the data array was overwritten by the first call: a second call with nothing masked returns other values than the data'
+        except Exception as e:
+            out['history'] = 'second call raises ' + core.exc_kind(e)
+    return out
 
 
 def _line_mi(c):
@@ -288,6 +300,9 @@ def _maskinterp(ctx, cases=None):
                                        'err' if 'err' in impl else 'ok'))
         if c['kind'] != 'rand':
             ctx.count('mi:refusal:' + c['kind'])
+        hist = impl.pop('history', None) if isinstance(impl, dict) else None
+        if hist:
+            ctx.violate('mi:history', hist, c)
         if impl != m:
             ctx.disagree('mi', c, impl, m)
         _oracle_mi(ctx, c, impl)
